@@ -91,11 +91,23 @@ func (i *ident) tlsCert(chain ...*ident) tls.Certificate {
 }
 
 type pki struct {
-	ca, server, valid, wrongName, selfSigned, foreignCA, foreign, expired, inter, underInter, neutralInter, validUnderNeutral *ident
-	dir                                                                                                                       string
+	ca, server, valid, wrongName, selfSigned, foreignCA, foreign, expired, inter, underInter, neutralInter, validUnderNeutral, revoked *ident
+	dir                                                                                                                                string
 }
 
 const ruleName = "trusted-client"
+const revokedName = "revoked-client"
+
+// revocationList is an application authenticator consulted before the common-name rule: it turns away one certificate and -
+// unlike the bundled authenticators - says why (ok = false together with an error value).
+type revocationList struct{}
+
+func (revocationList) Authenticate(conn auth.Conn) (bool, error) {
+	if st, ok := conn.TLSConnectionState(); ok && len(st.PeerCertificates) > 0 && st.PeerCertificates[0].Subject.CommonName == revokedName {
+		return false, errors.New("certificate is revoked")
+	}
+	return true, nil
+}
 
 func newPKI() *pki {
 	now := time.Now()
@@ -105,6 +117,7 @@ func newPKI() *pki {
 	p.server = issue("localhost", false, p.ca, ok1, ok2)
 	p.valid = issue(ruleName, false, p.ca, ok1, ok2)
 	p.wrongName = issue("mallory", false, p.ca, ok1, ok2)
+	p.revoked = issue(revokedName, false, p.ca, ok1, ok2)
 	p.selfSigned = issue(ruleName, false, nil, ok1, ok2)
 	p.foreignCA = issue("foreign-ca", true, nil, ok1, ok2)
 	p.foreign = issue(ruleName, false, p.foreignCA, ok1, ok2)
@@ -183,6 +196,7 @@ func newSUT(p *pki, mode string, rule bool, pw string) *sut {
 		must(s.srv.SetTLSCaCertFile(filepath.Join(p.dir, "ca.crt")))
 	}
 	if rule {
+		s.srv.AddAuthenticator(revocationList{})
 		s.srv.AddAuthenticator(auth.NewCertificateAuthenticatorWith(auth.WithCommonName(ruleName)))
 	}
 	if pw != "" {
@@ -649,7 +663,75 @@ func modeTLSGate(args []string) {
 		if err := s.srv.Stop(); err != nil {
 			emit(map[string]any{"error": "stop: " + err.Error(), "config": cfgName})
 		}
+		if rule {
+			passwordChangePhase(p, cfgName, pw)
+		}
 	}
+}
+
+// passwordChangePhase runs on a server of its own (configuration cfgName: a common-name rule, with or without a password).
+func passwordChangePhase(p *pki, cfgName string, pw string) {
+	s, err := startSUT(p, "both", true, pw)
+	if err != nil {
+		emit(map[string]any{"error": "start: " + err.Error(), "config": cfgName})
+		return
+	}
+	defer s.srv.Stop()
+	// the password is changed while the server runs (CONFIG SET requirepass by an authorized client) and by the operator
+	// (SetRequirePass + Restart): the certificate gate is not part of the password - clients whose certificate the rule turns
+	// away are still turned away, whichever password they present
+	tryRefused := func(phase string, cred string, cert tls.Certificate, pws []string) {
+		r := gateResult{Config: cfgName + phase, Cred: cred, Fault: "complete", Order: "bad-first", GoodTLS: true, GoodPlain: plainAlive(s.plain)}
+		before := atomic.LoadInt64(&s.executed)
+		raw, err := net.DialTimeout("tcp", addr(s.secure), ioTimeout)
+		if err != nil {
+			r.Note = "dial: " + err.Error()
+		} else {
+			c := tls.Client(raw, p.clientConfig(&cert))
+			c.SetDeadline(time.Now().Add(ioTimeout))
+			if err := c.Handshake(); err == nil {
+				r.Handshake = true
+				for _, w := range pws {
+					exchange(c, resp("AUTH", w))
+				}
+				rep, err := exchange(c, resp("WHOAMI"))
+				r.Served = err == nil && strings.HasPrefix(rep, "$")
+			}
+			raw.Close()
+		}
+		time.Sleep(2 * time.Millisecond)
+		r.Executed = atomic.LoadInt64(&s.executed) - before
+		emit(r)
+	}
+	vc := p.valid.tlsCert()
+	if raw, err := net.DialTimeout("tcp", addr(s.secure), ioTimeout); err == nil {
+		c := tls.Client(raw, p.clientConfig(&vc))
+		c.SetDeadline(time.Now().Add(ioTimeout))
+		if c.Handshake() == nil {
+			if pw != "" {
+				exchange(c, resp("AUTH", pw))
+			}
+			exchange(c, resp("CONFIG", "SET", "requirepass", "changed-1"))
+		}
+		raw.Close()
+	}
+	pws := []string{"changed-1", pw}
+	tryRefused("+password-changed-by-config-set", "wrongname", p.wrongName.tlsCert(), pws)
+	tryRefused("+password-changed-by-config-set", "intermediate-name", p.underInter.tlsCert(p.inter), pws)
+	s.srv.SetRequirePass("changed-2")
+	if err := s.srv.Restart(); err != nil {
+		emit(map[string]any{"error": "restart after password change: " + err.Error(), "config": cfgName})
+	}
+	pws = []string{"changed-2", "changed-1", pw}
+	tryRefused("+password-changed-and-restarted", "wrongname", p.wrongName.tlsCert(), pws)
+	tryRefused("+password-changed-and-restarted", "intermediate-name", p.underInter.tlsCert(p.inter), pws)
+	s.srv.SetRequirePass("changed-3")
+	if err := s.srv.Restart(); err != nil {
+		emit(map[string]any{"error": "restart after password change: " + err.Error(), "config": cfgName})
+	}
+	pws = []string{"changed-3", "changed-2", "changed-1", pw}
+	tryRefused("+password-changed-twice-and-restarted", "wrongname", p.wrongName.tlsCert(), pws)
+	tryRefused("+password-changed-twice-and-restarted", "selfsigned", p.selfSigned.tlsCert(), pws)
 }
 
 func idOr(id, cred string) string {
@@ -833,13 +915,25 @@ func oneEnding(p *pki, s *sut, mode string, k int) {
 			io.ReadAll(io.LimitReader(c, 64))
 			c.Close()
 		}
-	case "tls-rejected-cert":
+	case "tls-rejected-cert", "tls-rejected-with-reason":
+		// the common-name rule turns the certificate away (ok = false, no error value) / the application's revocation list does
+		// (ok = false with an error value); every other time the client keeps its end open and waits for the server to hang up
 		wc := p.wrongName.tlsCert()
+		if mode == "tls-rejected-with-reason" {
+			wc = p.revoked.tlsCert()
+		}
 		if raw, err := net.DialTimeout("tcp", addr(s.secure), ioTimeout); err == nil {
 			c := tls.Client(raw, p.clientConfig(&wc))
 			c.SetDeadline(time.Now().Add(ioTimeout))
 			if c.Handshake() == nil {
-				exchange(c, resp("PING"))
+				if k%2 == 0 {
+					exchange(c, resp("PING"))
+				} else {
+					raw.SetDeadline(time.Now().Add(ioTimeout))
+					if _, err := io.ReadAll(raw); errors.Is(err, os.ErrDeadlineExceeded) {
+						atomic.AddInt32(&notClosedByServer, 1)
+					}
+				}
 			}
 			c.Close()
 		}
@@ -863,7 +957,7 @@ func modeChurn(args []string) {
 	warmUp()
 	p := newPKI()
 	defer p.cleanup()
-	modes := []string{"fin-boundary", "fin-mid", "rst", "quit", "malformed", "stops-reading", "tls-polite", "tls-rst", "tls-handshake-fail", "tls-rejected-cert", "tls-stall"}
+	modes := []string{"fin-boundary", "fin-mid", "rst", "quit", "malformed", "stops-reading", "tls-polite", "tls-rst", "tls-handshake-fail", "tls-rejected-cert", "tls-rejected-with-reason", "tls-stall"}
 	// one ending mode at a time (attributable), then all mixed
 	runBatch := func(name string, pick func(i int) string, n int, inflight int, stopWithOpen bool) {
 		var s *sut
@@ -1669,9 +1763,61 @@ func modeRaceStress(args []string) {
 		fmt.Fprintln(os.Stderr, "start:", err)
 		os.Exit(3)
 	}
+	// a second Server value in the same process (an application may well run two: a cache and a queue, a public and an admin
+	// port): whatever the framework keeps per process rather than per Server is shared by the connection goroutines of both,
+	// and no per-Server lock orders those
+	s2, err2 := startSUT(p, "plain", false, "")
+	if err2 != nil {
+		fmt.Fprintln(os.Stderr, "start second server:", err2)
+		os.Exit(3)
+	}
+	defer s2.srv.Stop()
 	deadline := time.Now().Add(time.Duration(secs) * time.Second)
 	var wg sync.WaitGroup
 	var ops int64
+	for w := 0; w < 4; w++ {
+		wg.Add(1)
+		go func(w int) {
+			defer wg.Done()
+			x := uint32(seed*104729+w)*2654435761 + 7
+			next := func() int { x ^= x << 13; x ^= x >> 17; x ^= x << 5; return int(x >> 1) }
+			for time.Now().Before(deadline) {
+				srv := s2
+				if w == 3 {
+					srv = s
+				}
+				c, err := net.DialTimeout("tcp", addr(srv.plain), time.Second)
+				if err != nil {
+					time.Sleep(time.Millisecond)
+					continue
+				}
+				for i := 0; i < 40; i++ {
+					pat := fmt.Sprintf("k%d*%c?", next()%500, 'a'+byte(next()%26))
+					var cmd []string
+					switch next() % 6 {
+					case 0:
+						cmd = []string{"KEYS", pat}
+					case 1:
+						cmd = []string{"SCAN", "0", "MATCH", pat}
+					case 2:
+						cmd = []string{"SET", fmt.Sprintf("k%d", next()%50), "v"}
+					case 3:
+						cmd = []string{"CONFIG", "SET", "maxmemory", strconv.Itoa(next() % 9)}
+					case 4:
+						cmd = []string{"CONFIG", "GET", "maxmemory"}
+					default:
+						cmd = []string{"MGET", "k1", "k2"}
+					}
+					c.SetDeadline(time.Now().Add(time.Second))
+					if _, err := exchange(c, resp(cmd...)); err != nil {
+						break
+					}
+					atomic.AddInt64(&ops, 1)
+				}
+				c.Close()
+			}
+		}(w)
+	}
 	cmds := [][]string{{"PING"}, {"SET", "k", "v"}, {"GET", "k"}, {"INCR", "n"}, {"CONFIG", "SET", "maxmemory", "1"}, {"CONFIG", "GET", "maxmemory", "port"}, {"CONFIG", "SET", "timeout", "300"}, {"CONFIG", "SET", "maxclients", "100", "timeout", "0"},
 		{"CONFIG", "SET", "tcp-keepalive", "60"}, {"CONFIG", "GET", "timeout", "maxclients"}, {"SELECT", "1"},
 		{"RPUSH", "l", "a"}, {"LPOP", "l"}, {"SADD", "s", "a"}, {"SMEMBERS", "s"}, {"ZADD", "z", "1", "a"}, {"ZRANGE", "z", "0", "-1"}, {"HSET", "h", "f", "v"}, {"HGETALL", "h"},
@@ -1796,4 +1942,72 @@ func modeRaceStress(args []string) {
 		}
 	}
 	emit(map[string]any{"ops": atomic.LoadInt64(&ops), "restarts": restarts, "clients": clients, "seconds": secs, "stop_after_fresh_accept": fresh})
+}
+
+// ---------------------------------------------------------------- idle connections (C03 / C15)
+// modeIdle <seconds>: clients connect to both ports, exchange a few commands, stay silent for the given time and go on: a
+// connection is served until the client ends it or Stop is called, however long it was idle.
+type idleResult struct {
+	Conn    string `json:"conn"`
+	IdleSec int    `json:"idle_seconds"`
+	Before  bool   `json:"served_before"`
+	After   bool   `json:"served_after"`
+	Note    string `json:"note,omitempty"`
+}
+
+func modeIdle(args []string) {
+	secs := 35
+	if len(args) > 0 {
+		secs, _ = strconv.Atoi(args[0])
+	}
+	warmUp()
+	p := newPKI()
+	defer p.cleanup()
+	s, err := startSUT(p, "both", true, "")
+	if err != nil {
+		emit(map[string]any{"error": "start: " + err.Error()})
+		return
+	}
+	defer stopGuarded(s.srv)
+	type cl struct {
+		name string
+		c    net.Conn
+	}
+	var cls []cl
+	if c, err := net.DialTimeout("tcp", addr(s.plain), ioTimeout); err == nil {
+		cls = append(cls, cl{"plain", c})
+	}
+	vc := p.valid.tlsCert()
+	for _, ver := range []uint16{tls.VersionTLS12, tls.VersionTLS13} {
+		if raw, err := net.DialTimeout("tcp", addr(s.secure), ioTimeout); err == nil {
+			cc := p.clientConfig(&vc)
+			cc.MaxVersion = ver
+			tc := tls.Client(raw, cc)
+			tc.SetDeadline(time.Now().Add(ioTimeout))
+			if err := tc.Handshake(); err == nil {
+				cls = append(cls, cl{fmt.Sprintf("tls1.%d", ver-tls.VersionTLS10), tc})
+			} else {
+				emit(idleResult{Conn: fmt.Sprintf("tls1.%d", ver-tls.VersionTLS10), IdleSec: secs, Note: "handshake: " + err.Error()})
+			}
+		}
+	}
+	res := make([]idleResult, len(cls))
+	for i, x := range cls {
+		res[i] = idleResult{Conn: x.name, IdleSec: secs}
+		r1, e1 := exchange(x.c, resp("PING"))
+		r2, e2 := exchange(x.c, resp("SET", "idle:"+x.name, "v"))
+		res[i].Before = e1 == nil && e2 == nil && strings.HasPrefix(r1, "+PONG") && strings.HasPrefix(r2, "+OK")
+	}
+	time.Sleep(time.Duration(secs) * time.Second)
+	for i, x := range cls {
+		r1, e1 := exchange(x.c, resp("PING"))
+		r2, e2 := exchange(x.c, resp("GET", "idle:"+x.name))
+		r3, e3 := exchange(x.c, resp("ECHO", "still-here"))
+		res[i].After = e1 == nil && e2 == nil && e3 == nil && strings.HasPrefix(r1, "+PONG") && strings.HasPrefix(r2, "$1\r\nv") && strings.HasPrefix(r3, "$10\r\nstill-here")
+		if !res[i].After {
+			res[i].Note = fmt.Sprintf("after the pause: PING -> %q (%v) ; GET -> %q (%v) ; ECHO -> %q (%v)", r1, e1, r2, e2, r3, e3)
+		}
+		x.c.Close()
+		emit(res[i])
+	}
 }
